@@ -28,7 +28,7 @@ RULE = (
     "generations share a clock second or a nested history exists); distinct by canonical scenario hash."
 )
 ASSUMPTIONS = ["the clock is the real one or freezegun's; no concurrent second writer on the same history"]
-BUDGET = {"quick": (220, 4), "thorough": (24000, 16)}
+BUDGET = {"quick": (220, 4), "thorough": (16000, 16)}
 REQUIRED = ["gens>=3", "failed_run", "same_second", "nested", "sf", "empty_root_sealed", "non_utc_host_zone", "same_named_children", "folder_name>=219_bytes", "failing_sf_into_nested_history"]
 
 CFG = {
